@@ -368,9 +368,79 @@ def case_eval_statements(ctx):
              features=("eval_statements",), nontrivial=True)
 
 
+def case_keys_across_nests(ctx):
+    """sort keys / dropna subsets naming fields of DIFFERENT nests are refused — never read as fields of the first nest"""
+    rng = ctx.rng
+    nf, schema, markers, lens, _ = build_frame(ctx, collide="field_a")
+    n1, n2 = list(schema)[:2]
+    shared = schema[n1][0]
+    if shared not in schema[n2]:
+        nf[f"{bq(n2)}.{bq(shared)}"] = np.array([float(7000 + r) for r in range(sum(lens))])
+        schema[n2] = schema[n2] + [shared]
+    before = {n: [None if v is None else float(v) for v in pa.array(nf[f"{bq(n)}.{bq(shared)}"]).to_pylist()] for n in (n1, n2)}
+    f2 = rng.choice(schema[n2])
+    keys = [f"{bq(n1)}.{bq(shared)}", f"{bq(n2)}.{bq(f2)}"]
+    if rng.random() < 0.5:
+        keys.reverse()
+    for opn, fn in (("sort_values", lambda: nf.sort_values(keys)), ("dropna", lambda: nf.dropna(subset=keys))):
+        real = call_real(lambda: (fn(), "returned")[1])
+        ctx.case(f"names.across_nests.{opn}", {"keys": keys, "schema": schema_json(nf, schema)}, real, None, {"err": "ValueError"},
+                 features=("across_nests", opn), spec_ok="err" in real, nontrivial=True)
+
+
+def case_literal_dotted_nonfield(ctx):
+    """a base column literally named 'nest.x' where x is NOT a field of the nest: item access gives that column; every
+    other operation either refuses the path or means the same column — never some other field of the nest"""
+    rng = ctx.rng
+    nf, schema, markers, lens, _ = build_frame(ctx)
+    nest = rng.choice([n for n in schema if "." not in n] or list(schema))
+    lit = f"{nest}.snr_x"
+    vals = [-11.0, -22.0, -33.0]
+    pd.DataFrame.__setitem__(nf, lit, np.array(vals))
+    want = {"ok": vals}
+    real = call_real(lambda: [float(v) for v in nf[lit].tolist()])
+    ctx.case("names.literal_nonfield.getitem", {"path": lit, "schema": schema_json(nf, schema)}, real, None, want,
+             features=("literal_nonfield",), nontrivial=True)
+
+    def red():
+        got = []
+
+        def fun(a):
+            a = np.asarray(a, dtype=float)
+            got.append([float(a.item())] if a.ndim == 0 else [None if v != v else float(v) for v in a.tolist()])
+            return {"k": 0}
+        nf.reduce(fun, lit)
+        return sum(got, [])
+    r = call_real(red)
+    ctx.case("names.literal_nonfield.reduce", {"path": lit, "schema": schema_json(nf, schema)}, r, None, want,
+             features=("literal_nonfield",), spec_ok=("err" in r or r == want), nontrivial=True)
+    for opn, fn in (("sort_values", lambda: nf.sort_values(lit)), ("dropna", lambda: nf.dropna(subset=lit)),
+                    ("query", lambda: nf.query(f"`{lit}` < 0"))):
+        def run(fn=fn):
+            out = fn()
+            # whatever it did, the nest's own fields hold the values they held (as multisets per field: a base-level
+            # sort may move rows)
+            return {f: sorted((x is None, x or 0.0) for x in [None if v is None else float(v) for v in pa.array(out[nest].nest[f]).to_pylist()])
+                    for f in schema[nest]}
+        r = call_real(run)
+        exp = {f: sorted((x is None, x or 0.0) for x in field_vals(markers, nest, f)) for f in schema[nest]}
+        exp = json_roundtrip(exp)
+        ctx.case(f"names.literal_nonfield.{opn}", {"path": lit, "schema": schema_json(nf, schema)},
+                 r if "err" in r else {"ok": json_roundtrip(r["ok"])}, None, {"ok": exp},
+                 features=("literal_nonfield", opn), spec_ok=("err" in r or json_roundtrip(r["ok"]) == exp), nontrivial=True)
+
+
+def json_roundtrip(x):
+    import json
+    return json.loads(json.dumps(x))
+
+
 def run_all(ctx):
     for i in range(ctx.budget(20, 200)):
         case_after_failed_calls(ctx)
+    for i in range(ctx.budget(12, 120)):
+        case_keys_across_nests(ctx)
+        case_literal_dotted_nonfield(ctx)
     for i in range(ctx.budget(25, 250)):
         case_reduce_many_paths(ctx)
         case_eval_statements(ctx)
